@@ -6,9 +6,12 @@ var registry = map[string]func() core.Engine{
 	"C01": func() core.Engine { return &C01{} },
 	"C02": func() core.Engine { return &C02{} },
 	"C03": func() core.Engine { return &C03{} },
+	"C04": func() core.Engine { return &C04{} },
 	"C06": func() core.Engine { return &C06{} },
 	"C07": func() core.Engine { return &C07{} },
+	"C08": func() core.Engine { return &C08{} },
 	"C14": func() core.Engine { return &C14{} },
+	"C15": func() core.Engine { return &C15{} },
 }
 
 // Lookup returns a fresh engine for the property id, or nil.
